@@ -128,14 +128,15 @@ def _gen_read_neighbors(w, rng):
     s = pick_base(w, rng)
     if s is None:
         return None
-    weights = rng.random() < 0.3
+    weights = rng.random() < 0.45
     c = nlfiles(w, s, weights=weights, need_cn=False)
     if not c:
         return None
     p = rng.choice(c)
     f = w.files[p]
     k = rng.randint(1, f["frames"])
-    nmax = rng.choice([1, 2, max(1, f["maxcn"] - 1), f["maxcn"], f["maxcn"] + 2, 30, None])
+    # few distinct values per run, so that two reads with the same (nparticle, Nmax) are common
+    nmax = rng.choice([2, max(1, f["maxcn"] - 1), f["maxcn"], 30, 30, None, None] if rng.random() < 0.8 else [1, f["maxcn"] + 2])
     return {"args": {"path": p, "nparticle": w.pool[s].tag["N"], "frames": k, "Nmax": nmax},
             "reads": {p: f["src"]}, "meta": {"snaps": w.pool[s].tag["bundle"], "weights": weights}}
 
